@@ -20,7 +20,7 @@ def TextOK (cell : Cell) : Prop :=
 
 /-- A run starts at `(line, col)`: its start cell is not CONT, it has at least one column and fits in the line, its other
     cells are CONT cells pointing at `col`, LINE and CHAR runs have one column, and the content is presentable. -/
-structure RunAt (rb : RB) (line col : Int) : Prop where
+structure RunAtP (ok : Int → Prop) (rb : RB) (line col : Int) : Prop where
   notCont : (rb.cell line col).state ≠ .cont
   pos : 1 ≤ (rb.cell line col).cols
   fits : col + (rb.cell line col).cols ≤ rb.cols
@@ -28,17 +28,25 @@ structure RunAt (rb : RB) (line col : Int) : Prop where
     (rb.cell line k).state = .cont ∧ (rb.cell line k).cols = col
   one : (rb.cell line col).state = .line ∨ (rb.cell line col).state = .char → (rb.cell line col).cols = 1
   mask : (rb.cell line col).state = .line → 1 ≤ (rb.cell line col).lmask ∧ (rb.cell line col).lmask < 256
-  char : (rb.cell line col).state = .char → CharOK (rb.cell line col).cp
+  char : (rb.cell line col).state = .char → ok (rb.cell line col).cp
   text : (rb.cell line col).state = .text → TextOK (rb.cell line col)
 
+/-- A run whose CHAR content, if any, is one column wide. -/
+abbrev RunAt := RunAtP CharOK
+
 /-- The runs of `line` tile the columns from `col` to the right edge. -/
-inductive Tiled (rb : RB) (line : Int) : Int → Prop
-  | done : Tiled rb line rb.cols
-  | run {col : Int} : col < rb.cols → RunAt rb line col →
-      Tiled rb line (col + (rb.cell line col).cols) → Tiled rb line col
+inductive TiledP (ok : Int → Prop) (rb : RB) (line : Int) : Int → Prop
+  | done : TiledP ok rb line rb.cols
+  | run {col : Int} : col < rb.cols → RunAtP ok rb line col →
+      TiledP ok rb line (col + (rb.cell line col).cols) → TiledP ok rb line col
+
+abbrev Tiled := TiledP CharOK
 
 /-- Every line of the buffer is tiled by runs. -/
-def FlushWF (rb : RB) : Prop := ∀ line, 0 ≤ line → line < rb.lines → Tiled rb line 0
+def FlushWFP (ok : Int → Prop) (rb : RB) : Prop := ∀ line, 0 ≤ line → line < rb.lines → TiledP ok rb line 0
+
+/-- Well-formed, and every CHAR cell holds a code point that is one column wide. -/
+abbrev FlushWF := FlushWFP CharOK
 
 /-! ### A decision procedure for `FlushWF` (used for the non-vacuity examples) -/
 
@@ -51,26 +59,34 @@ def textOKb (cell : Cell) : Bool :=
   | some cs => decide (0 ≤ cell.offs) && decide (cell.offs + cell.cols ≤ chCols cs)
   | none => false
 
-def runAtB (rb : RB) (line col : Int) : Bool :=
+def runAtB (okb : Int → Bool) (rb : RB) (line col : Int) : Bool :=
   let cell := rb.cell line col
   decide (cell.state ≠ .cont) && decide (1 ≤ cell.cols) && decide (col + cell.cols ≤ rb.cols) &&
   ((List.range (cell.cols - 1).toNat).all fun j =>
     decide ((rb.cell line (col + 1 + j)).state = .cont) && decide ((rb.cell line (col + 1 + j)).cols = col)) &&
   (!(decide (cell.state = .line) || decide (cell.state = .char)) || decide (cell.cols = 1)) &&
   (!decide (cell.state = .line) || (decide (1 ≤ cell.lmask) && decide (cell.lmask < 256))) &&
-  (!decide (cell.state = .char) || charOKb cell.cp) &&
+  (!decide (cell.state = .char) || okb cell.cp) &&
   (!decide (cell.state = .text) || textOKb cell)
 
-def tiledB (rb : RB) (line : Int) : Nat → Int → Bool
+def tiledB (okb : Int → Bool) (rb : RB) (line : Int) : Nat → Int → Bool
   | 0, col => decide (col = rb.cols)
   | n + 1, col =>
     decide (col = rb.cols) ||
-    (decide (col < rb.cols) && runAtB rb line col && tiledB rb line n (col + (rb.cell line col).cols))
+    (decide (col < rb.cols) && runAtB okb rb line col && tiledB okb rb line n (col + (rb.cell line col).cols))
 
-def flushWFb (rb : RB) : Bool :=
-  (List.range rb.lines.toNat).all fun l => tiledB rb (l : Int) rb.cols.toNat 0
+def flushWFPb (okb : Int → Bool) (rb : RB) : Bool :=
+  (List.range rb.lines.toNat).all fun l => tiledB okb rb (l : Int) rb.cols.toNat 0
 
-theorem runAt_of_runAtB {rb : RB} {line col : Int} (h : runAtB rb line col = true) : RunAt rb line col := by
+def flushWFb (rb : RB) : Bool := flushWFPb charOKb rb
+
+theorem charOK_of_charOKb (cp : Int) (h : charOKb cp = true) : CharOK cp := by
+  unfold charOKb at h
+  simp only [Bool.and_eq_true, decide_eq_true_eq] at h
+  exact h
+
+theorem runAt_of_runAtB {ok : Int → Prop} {okb : Int → Bool} (hok : ∀ cp, okb cp = true → ok cp)
+    {rb : RB} {line col : Int} (h : runAtB okb rb line col = true) : RunAtP ok rb line col := by
   unfold runAtB at h
   simp only [Bool.and_eq_true, decide_eq_true_eq, List.all_eq_true, List.mem_range, Bool.or_eq_true,
     Bool.not_eq_true', decide_eq_false_iff_not] at h
@@ -95,10 +111,7 @@ theorem runAt_of_runAtB {rb : RB} {line col : Int} (h : runAtB rb line col = tru
   · intro hs
     cases h7 with
     | inl h => exact absurd hs h
-    | inr h =>
-      unfold charOKb at h
-      simp only [Bool.and_eq_true, decide_eq_true_eq] at h
-      exact h
+    | inr h => exact hok _ h
   · intro hs
     cases h8 with
     | inl h => exact absurd hs h
@@ -112,28 +125,33 @@ theorem runAt_of_runAtB {rb : RB} {line col : Int} (h : runAtB rb line col = tru
         simp only [Bool.and_eq_true, decide_eq_true_eq] at h
         exact ⟨cs, rfl, h.1, h.2⟩
 
-theorem tiled_of_tiledB {rb : RB} {line : Int} : ∀ (n : Nat) (col : Int), tiledB rb line n col = true →
-    Tiled rb line col := by
+theorem tiled_of_tiledB {ok : Int → Prop} {okb : Int → Bool} (hok : ∀ cp, okb cp = true → ok cp)
+    {rb : RB} {line : Int} : ∀ (n : Nat) (col : Int), tiledB okb rb line n col = true →
+    TiledP ok rb line col := by
   intro n
   induction n with
   | zero =>
     intro col h
     simp only [tiledB, decide_eq_true_eq] at h
-    rw [h]; exact Tiled.done
+    rw [h]; exact TiledP.done
   | succ k ih =>
     intro col h
     simp only [tiledB, Bool.or_eq_true, decide_eq_true_eq, Bool.and_eq_true] at h
     cases h with
-    | inl h => rw [h]; exact Tiled.done
-    | inr h => exact Tiled.run h.1.1 (runAt_of_runAtB h.1.2) (ih _ h.2)
+    | inl h => rw [h]; exact TiledP.done
+    | inr h => exact TiledP.run h.1.1 (runAt_of_runAtB hok h.1.2) (ih _ h.2)
 
-theorem flushWF_of_flushWFb {rb : RB} (h : flushWFb rb = true) : FlushWF rb := by
+theorem flushWFP_of_flushWFPb {ok : Int → Prop} {okb : Int → Bool} (hok : ∀ cp, okb cp = true → ok cp)
+    {rb : RB} (h : flushWFPb okb rb = true) : FlushWFP ok rb := by
   intro line h0 h1
-  unfold flushWFb at h
+  unfold flushWFPb at h
   simp only [List.all_eq_true, List.mem_range] at h
   have := h line.toNat (by omega)
   rw [show ((line.toNat : Nat) : Int) = line by omega] at this
-  exact tiled_of_tiledB _ _ this
+  exact tiled_of_tiledB hok _ _ this
+
+theorem flushWF_of_flushWFb {rb : RB} (h : flushWFb rb = true) : FlushWF rb :=
+  flushWFP_of_flushWFPb charOK_of_charOKb h
 
 theorem Tiled.le_cols {rb : RB} {line col : Int} (h : Tiled rb line col) : col ≤ rb.cols := by
   induction h with
